@@ -137,9 +137,14 @@ class LangError(Exception):
     pass
 
 
+import keyword
+
+
 def arith(text):
     """expression text -> QPoly with Python operator precedence"""
     text = text.strip()
+    # identifiers that are Python keywords (a variable may be called `continue`) are renamed for ast.parse only
+    text = re.sub(r"\b([A-Za-z_][A-Za-z_0-9]*)\b", lambda m: "kw__" + m.group(1) if keyword.iskeyword(m.group(1)) else m.group(1), text)
     try:
         tree = ast.parse(text, mode="eval").body
     except SyntaxError as e:
@@ -156,7 +161,7 @@ def _ev(n):
         # decimal literal denotes its decimal value; recover the literal text via repr (shortest round-trip)
         return QPoly.const(Fraction(repr(n.value)))
     if isinstance(n, ast.Name):
-        return QPoly.var(n.id)
+        return QPoly.var(n.id[4:] if n.id.startswith("kw__") else n.id)
     if isinstance(n, ast.UnaryOp):
         v = _ev(n.operand)
         if isinstance(n.op, ast.USub):
